@@ -1,7 +1,7 @@
 --------------------------------- MODULE Vec ---------------------------------
 (* Binding G: vectors printed by the *_Gen specifications, one JSON object per *)
 (* case, replayed into the Go code by the harness.                             *)
-EXTENDS Exec, Json, IOUtils
+EXTENDS Exec, Seed, Json
 
 (* AST construction helpers *)
 Text(s)      == [k |-> "text", d |-> S2B(s)]
@@ -69,13 +69,4 @@ GenNext(lvl, i, Picked, K) ==
   \/ lvl = 0 /\ lvl' = 1 /\ i' \in 0..(K - 1)
   \/ lvl = 1 /\ lvl' = 2 /\ i' \in {j \in Picked : j % K = i}
 
-(* VERIF_SEED from the environment, as a number modulo m *)
-SeedMod(m) ==
-  LET s == IF "VERIF_SEED" \in DOMAIN IOEnv THEN IOEnv.VERIF_SEED ELSE "1"
-      RECURSIVE V(_, _)
-      V(str, acc) == IF str = "" THEN acc
-                     ELSE LET c == SubSeq(str, 1, 1) IN
-                          V(SubSeq(str, 2, Len(str)),
-                            (acc * 10 + (IF c \in DOMAIN CharCode /\ IsDigitB(CharCode[c]) THEN CharCode[c] - 48 ELSE 0)) % 100000)
-  IN V(s, 0) % m
 =============================================================================
